@@ -119,6 +119,7 @@ class RecordClass:
     name: str
     fields: list[str]
     defaults: dict[str, ast.expr]
+    methods: dict[str, Any] = field(default_factory=dict)
 
 
 class Record(dict):
@@ -161,7 +162,9 @@ class GenInterp:
         for st in mod.tree.body:
             if isinstance(st, ast.ClassDef) and any((norm(b) or "").split(".")[-1] == "NamedTuple" for b in st.bases):
                 flds = [x for x in st.body if isinstance(x, ast.AnnAssign) and isinstance(x.target, ast.Name)]
-                self.globals.vars[st.name] = RecordClass(st.name, [x.target.id for x in flds], {x.target.id: x.value for x in flds if x.value is not None})
+                rc = RecordClass(st.name, [x.target.id for x in flds], {x.target.id: x.value for x in flds if x.value is not None})
+                rc.methods = {x.name: Closure(x, self.globals, f"{st.name}.{x.name}") for x in st.body if isinstance(x, ast.FunctionDef)}
+                self.globals.vars[st.name] = rc
         for st in mod.tree.body:  # module constants, lazily tolerant
             if isinstance(st, (ast.Assign, ast.AnnAssign)) and st.value is not None:
                 tg = st.targets[0] if isinstance(st, ast.Assign) and len(st.targets) == 1 else getattr(st, "target", None)
@@ -213,9 +216,7 @@ class GenInterp:
 
     def call(self, e: ast.Call, sc: Scope) -> Any:
         fn = e.func
-        if any(isinstance(a, ast.Starred) for a in e.args) or any(k.arg is None for k in e.keywords):
-            if isinstance(fn, ast.Name) and fn.id == self.sink:
-                raise Unsupported("star arguments in the call of the code sink", e)
+        # (star arguments are expanded below from the evaluated values, for the code sink as for any other call)
         args: list[Any] = []
         for a in e.args:
             if isinstance(a, ast.Starred):
@@ -264,6 +265,8 @@ class GenInterp:
                 return getattr(recv, m)(*args)
             if isinstance(recv, Record) and m in recv:
                 return self.call_value(recv[m], args, kwargs, e)
+            if isinstance(recv, Record) and getattr(recv, "_cls", None) is not None and m in recv._cls.methods:
+                return self.call_closure(recv._cls.methods[m], [recv] + list(args), kwargs, e)
             raise Unsupported(f"method {m} on {type(recv).__name__} in a generator", e)
         f = self.ev(fn, sc)
         return self.call_value(f, args, kwargs, e)
@@ -279,7 +282,9 @@ class GenInterp:
                     if k not in f.defaults:
                         raise Unsupported(f"missing field {k} for {f.name}", e)
                     vals[k] = self.ev(f.defaults[k], self.globals)
-            return Record(vals)
+            r_ = Record(vals)
+            r_._cls = f  # type: ignore[attr-defined]
+            return r_
         if isinstance(f, Closure):
             return self.call_closure(f, args, kwargs, e)
         raise Unsupported(f"call {norm(e)[:50]} in a generator", e)
@@ -599,8 +604,8 @@ class GenInterp:
                 raise _Brk()
             elif isinstance(st, ast.Continue):
                 raise _Cont()
-            elif isinstance(st, ast.Assert):
-                continue
+            elif isinstance(st, (ast.Assert, ast.Import, ast.ImportFrom, ast.Global, ast.Nonlocal)):
+                continue  # (imports bind names the evaluator looks up on demand; an unknown one is reported where it is used)
             else:
                 raise Unsupported(f"statement kind {type(st).__name__} in a generator", st)
 
